@@ -235,7 +235,10 @@ theorem connectBestChainT_mid (ht : Tree g T) {s : State} (h : Mid g T s) {b p :
       · cases he
       · split at he
         · cases he
-        · exact reorgToT_mid ht h hb e he
+        · rename_i f hff
+          split at he
+          · cases he
+          · exact reorgToT_mid ht h hb e (by rw [hff]; exact he)
 
 theorem cons_of_addIndex {s : State} {b : Block} (h : Cons g T (addIndex s b)) : Cons g T s :=
   ⟨h.linked, h.h2h, h.last, h.blocks, h.txv, h.storedOk, h.seqOk⟩
